@@ -49,7 +49,7 @@ def main():
     index = S.SourceIndex()
     contracts, specs, rec, mods = load_contracts(index)
     sel = sys.argv[1:]
-    fids = [f for f, c in contracts.items() if not sel or c.prop in sel or any(s in f for s in sel)]
+    fids = [f for f, c in contracts.items() if not sel or c.prop in sel or any(s in c.also for s in sel) or any(s in f for s in sel)]
     for r in run_many(fids):
         print(summarize(r))
         if r.get('trace'):
